@@ -11,7 +11,7 @@ FORMULAS = [
     "y ~ x", "y ~ 1", "y ~ 0 + x", "y ~ x + f", "y ~ f:g + x", "y ~ bs(x, df=4) + f", "y ~ poly(x, 2):f", "y ~ x + (1|g)",
     "y ~ x + (x|g)", "y ~ (0 + f|g)", "y ~ (f|g) + (1|h)", "y ~ (x|g) + (z|h)", "y ~ (1|g:h)", "y ~ (x + z|g)", "y ~ x + (bs(x, df=4)|g)",
     "y ~ (poly(x, 2)|g) + (1|h)", "y ~ (f:x|g)", "f ~ x", "s['yes'] ~ x + (1|g)", "prop(succ, trials) ~ x", "y ~ scale(x) + (scale(x)|g)",
-    "y ~ x + (x|g) + (x|h)", "y ~ (1|h) + (x|g)", "y ~ 0 + I((x + 1) * 2) + I(x + 1 * 2)", "y ~ x + `x`", "y ~ x + offset(z) + f", "y ~ offset(2.5) + (1|g)",
+    "y ~ x + (x|g) + (x|h)", "y ~ (1|h) + (x|g)", "y ~ C(site) + x", "y ~ 0 + S(site) + x", "y ~ x:C(lab) + z", "y ~ poly(x, 2) + z", "y ~ x + (poly(x, 2)|g)", "y ~ 0 + I((x + 1) * 2) + I(x + 1 * 2)", "y ~ x + `x`", "y ~ x + offset(z) + f", "y ~ offset(2.5) + (1|g)",
 ]
 
 
@@ -24,6 +24,9 @@ def frame(seed, n=24):
     d["trials"] = rng.integers(5, 12, size=n)
     d["succ"] = (d["trials"] * rng.uniform(0, 1, size=n)).astype(int)
     d.loc[4, "x"] = np.nan          # one observation is dropped
+    # numeric factors whose levels differ beyond the sixth significant digit (ids stored as float; 0.1 + 0.2 next to 0.3)
+    d["site"] = _cover(rng, [1000001.0, 1000002.0, 1000003.0], n)
+    d["lab"] = pd.Categorical(_cover(rng, [0.1 + 0.2, 0.3, 0.5], n))
     return d
 
 
@@ -121,7 +124,9 @@ def _chunk(task):
         if g is not None:
             objs.append((g, "group", nrows, "group"))
         formulae.config["EVAL_UNSEEN_CATEGORIES"] = "silent"
-        for new, tag in ((new_seen, "seen"), (new_g, "new g"), (new_h, "new h"), (new_seen, "seen again")):
+        # (also new frames of one and two rows: the width of every term is the training width, whatever the data at hand)
+        for new, tag in ((new_seen, "seen"), (new_g, "new g"), (new_h, "new h"), (new_seen, "seen again"), (new_seen.iloc[[1]], "one row"),
+                         (new_seen.iloc[[0, 2]], "two rows")):
             for part in ("common", "group"):
                 m = getattr(dm, part)
                 if m is None:
